@@ -11,9 +11,10 @@
       nodes that meet at the gap left and at the place of arrival: one of a merged pair changes its value, the
       other one is removed);
     * detach / remove / element_wrap: the parent of the node (and its text children);  replace: the parents of both;
-      element_unwrap: the parent (and its text children) and the node itself;
+      element_unwrap: the parent (and its text children), the node itself and its text children;
     * the setters: the node itself;  text_content_mut().set(): the node and its children;
-    * a map update: the element and its entry nodes of that kind (an insertion overwrites an entry's value);
+    * a map update: the element and its children that are entries of that kind (an insertion overwrites an entry's
+      value, a removal removes one);
     * create_missing_prefixes / deduplicate_namespaces / remove_insignificant_whitespace: every node of the subtree;
     * node creation, set_text_consolidation, clone_node, clone_with_prefixes: nothing (only NEW handles are written).
 
@@ -58,7 +59,13 @@ def subtreeHandles (f : Forest) (n : Nat) : List Nat :=
 /-- The entry nodes of kind `k` of the element `e`. -/
 def entryHandles (f : Forest) (k : MapKind) (e : Nat) : List Nat :=
   match f.get? e with
-  | some t => (mapChildren k t).map (·.handle)
+  | some t => (t.kids.filter (fun c => k.matches c.value)).map (·.handle)
+  | none => []
+
+/-- The children of `n` that are not normal (its namespace and attribute nodes). -/
+def abnormalKidHandles (f : Forest) (n : Nat) : List Nat :=
+  match f.get? n with
+  | some t => (t.kids.filter (fun c => !c.value.isNormal)).map (·.handle)
   | none => []
 
 /-- The moved node itself when it is a text node (it may be merged with the text node it arrives next to). -/
@@ -72,7 +79,7 @@ def XCall.writtenParents (f : Forest) : XCall → List Nat
     f.siteW (f.parent? c) ++ f.siteW (f.parent? r) ++ f.textSelf c
   | .call (.detach n) | .call (.remove n) | .call (.elementWrap n _) => f.siteW (f.parent? n)
   | .call (.replace a b) => f.siteW (f.parent? a) ++ f.siteW (f.parent? b) ++ f.textSelf b
-  | .call (.elementUnwrap n) => n :: f.siteW (f.parent? n)
+  | .call (.elementUnwrap n) => n :: f.textKidHandles n ++ f.siteW (f.parent? n)
   | .call (.cloneNode _) => []
   | .call (.mapInsert k e _) | .call (.mapRemove k e _) | .call (.mapClear k e) => e :: f.entryHandles k e
   | .call (.setElementName n _) | .call (.setText n _) | .call (.setComment n _) | .call (.setPiData n _) => [n]
@@ -86,7 +93,7 @@ def XCall.writtenParents (f : Forest) : XCall → List Nat
 def XCall.removedHandles (f : Forest) : XCall → List Nat
   | .call (.remove n) => f.subtreeHandles n
   | .call (.replace a _) => f.subtreeHandles a
-  | .call (.elementUnwrap n) => [n]
+  | .call (.elementUnwrap n) => n :: f.abnormalKidHandles n
   | _ => []
 
 /-- **The nodes whose parent the call changes.** -/
@@ -107,14 +114,15 @@ def XCall.movedSubtree (f : Forest) : XCall → List Nat
   | _ => []
 
 /-- The constructors inside the domain of `C05_frame_general`: append, prepend, insert_after, insert_before, detach,
-    remove, the four value setters, node creation and `set_text_consolidation`.  LEFT OUT (not proved in the general
-    `get?`-of-the-node form; their frames exist in the `ctx?`-of-the-child form `C05_pair_frame_*`, `C05_map_frame`):
-    any_append, append of an entry node, replace, element_wrap, element_unwrap, clone_node, clone_with_prefixes, the map
-    updates, text_content_mut().set(), remove_insignificant_whitespace, create_missing_prefixes,
-    deduplicate_namespaces. -/
+    remove, element_wrap, clone_node, map insert, map remove, the four value setters, node creation and
+    `set_text_consolidation`.  LEFT OUT (not proved in the general `get?`-of-the-node form; their frames exist in the
+    `ctx?`-of-the-child form `C05_pair_frame_replace`, `C05_pair_frame_unwrap`): any_append, append of an entry node,
+    replace, element_unwrap, clone_with_prefixes, map clear, text_content_mut().set(),
+    remove_insignificant_whitespace, create_missing_prefixes, deduplicate_namespaces. -/
 def XCall.framed : XCall → Bool
   | .call (.append _ _) | .call (.prepend _ _) | .call (.insertAfter _ _) | .call (.insertBefore _ _)
-  | .call (.detach _) | .call (.remove _) => true
+  | .call (.detach _) | .call (.remove _) | .call (.elementWrap _ _) | .call (.cloneNode _)
+  | .call (.mapInsert _ _ _) | .call (.mapRemove _ _ _) => true
   | .call (.setElementName _ _) | .call (.setText _ _) | .call (.setComment _ _) | .call (.setPiData _ _) => true
   | .newNode _ => true
   | .setConsolidation _ => true
